@@ -49,10 +49,13 @@ impl Record {
         let reference_sequence_id = record.reference_sequence_id(header).transpose()?;
         let alignment_start = record.alignment_start().transpose()?;
 
+        let cigar = record.cigar();
+
         // A record that is not flagged as unmapped is written as a mapped read, whose bases are in
-        // its features. Without a reference sequence or an alignment start, there is nothing to
-        // align the read to.
-        let is_aligned = reference_sequence_id.is_some() && alignment_start.is_some();
+        // its features. Without a reference sequence, an alignment start, or a CIGAR, there is
+        // nothing to align the read to.
+        let is_aligned =
+            reference_sequence_id.is_some() && alignment_start.is_some() && !cigar.is_empty();
 
         let features = if !bam_flags.is_unmapped() && !is_aligned {
             Some(sequence_to_features(&sequence))
@@ -73,7 +76,7 @@ impl Record {
                 })?;
 
             cigar_to_features(
-                record.cigar().as_ref(),
+                cigar.as_ref(),
                 reference_sequence.as_ref(),
                 cram_flags,
                 start,
